@@ -441,6 +441,24 @@ def record_payloads():
     idat = chunk(b"IDAT", zlib.compress(b"\x00\x00"))
     iend = chunk(b"IEND", b"")
     tail = b"\x00" * 16
+    # WELL-FORMED picture records (OfficeArt BLIP: 8-byte header, 16-byte UID + tag, then the image), each alone, twice and three times
+    # in a row byte for byte, and next to a different one: what a de-duplicating / caching branch of a record walker is reached by
+    # (a writer that stores one picture per use instead of one per distinct picture)
+    png = PNG_SIG + ihdr + idat + iend
+    jpeg = (b"\xff\xd8\xff\xe0" + struct.pack(">H", 16) + b"JFIF\x00\x01\x01\x00\x00\x01\x00\x01\x00\x00" +
+            b"\xff\xc0" + struct.pack(">HBHHB", 11, 8, 1, 1, 1) + b"\x01\x11\x00" + b"\xff\xda" + struct.pack(">H", 8) + b"\x01\x01\x00\x00\x3f\x00" + b"\x00\xff\xd9")
+    dib = struct.pack("<IiiHHIIiiII", 40, 1, 1, 1, 24, 0, 4, 0, 0, 0, 0) + b"\x00\x00\x00\x00"
+
+    def blip(verinst, typ, image, uid_bytes=17):
+        body = bytes(range(16)) * (uid_bytes // 16) + b"\xff" + image
+        return struct.pack("<HHI", verinst, typ, len(body)) + body
+    blips = [("png", blip(0x6E00, 0xF01E, png)), ("jpeg", blip(0x46A0, 0xF01D, jpeg)), ("dib", blip(0x7A80, 0xF01F, dib)),
+             ("png-two-uids", blip(0x6E10, 0xF01E, png, 33)), ("emf", blip(0x3D40, 0xF01A, b"\x01\x00\x00\x00" + b"\x00" * 84))]
+    for lab, rec in blips:
+        yield f"blip:{lab}", rec
+        yield f"blip:{lab}-twice-identical", rec + rec
+        yield f"blip:{lab}-three-times-identical", rec + rec + rec
+    yield "blip:png-jpeg-png", blips[0][1] + blips[1][1] + blips[0][1]
     for v in BOUNDARY32:
         for typ in (b"IHDR", b"IDAT", b"tEXt"):
             yield f"png:first-chunk-{typ.decode()}-length-{v:08x}", PNG_SIG + struct.pack(">I", v) + typ + b"\x00" * 13 + b"\x00\x00\x00\x00" + iend + tail
@@ -510,12 +528,16 @@ def ole_record_cases(repo, key, payloads=None):
             # after the other on 4-byte boundaries: a scanning walker meets each of them, the file count stays small
             per = 1 if len(payloads) <= 4 else 12
             packs = []
-            for g in range(0, len(payloads), per):
-                grp = payloads[g:g + per]
+            groups = [payloads[g:g + per] for g in range(0, len(payloads), per)]
+            if per > 1:          # well-formed repeated records: one kind per file (small fixtures have room for it, and a finding names the kind)
+                wf = [x for x in payloads if x[0].startswith("blip:")]
+                rest = [x for x in payloads if not x[0].startswith("blip:")]
+                groups = [wf[g:g + 3] for g in range(0, len(wf), 3)] + [rest[g:g + per] for g in range(0, len(rest), per)]
+            for grp in groups:
                 blob = b""
                 for (_l, pl) in grp:
                     blob += pl + b"\x00" * ((-len(pl)) % 4 + 4)
-                lab = grp[0][0] if per == 1 else f"{grp[0][0]} .. {grp[-1][0]} ({len(grp)} records)"
+                lab = grp[0][0] if len(grp) == 1 else f"{grp[0][0]} .. {grp[-1][0]} ({len(grp)} records)"
                 packs.append((lab, blob))
             for where in ("end", "middle", "start"):            # "start": a walker that begins at offset 0 is in step with the records
                 for label, pl in packs:
@@ -744,6 +766,49 @@ except Exception:
 """
 
 
+TEXT_MEMBER_SUFFIXES = (".xml", ".xhtml", ".html", ".htm", ".opf", ".ncx", ".rels", ".txt", ".css", ".svg", ".vml", ".json", ".smil")
+
+
+def container_member_cases(repo, ext, raw, max_members=40, fixtures=2):
+    """ZIP-container formats (EPUB, OOXML, ODF ...): the smallest fixtures of the format with the hostile text placed in EACH
+    text member in turn -- as the whole member, just before the member's last closing tag, and right after its first tag -- and once
+    in all of them (parts the package's own index files name keep their role, only their content turns hostile)."""
+    import zipfile
+    files = sorted(glob.glob(os.path.join(repo, f"sharepoint2text/tests/resources/*/*.{ext}")), key=os.path.getsize)[:fixtures]
+    for f in files:
+        try:
+            zin = zipfile.ZipFile(f)
+            members = [(i, zin.read(i.filename)) for i in zin.infolist()]
+        except Exception:  # noqa  (not a ZIP container)
+            continue
+        texty = [i.filename for i, b in members if i.filename.lower().endswith(TEXT_MEMBER_SUFFIXES) and len(b) < 200_000 and i.filename != "mimetype"]
+        texty.sort(key=lambda n: (n.count("/") == 0 and n.startswith("["), len(n)))
+        texty = texty[:max_members]
+
+        def rebuild(change):
+            out = io.BytesIO()
+            with zipfile.ZipFile(out, "w") as z:
+                for i, b in members:
+                    nb = change(i.filename, b)
+                    z.writestr(i.filename, nb, compress_type=zipfile.ZIP_STORED if i.filename == "mimetype" else zipfile.ZIP_DEFLATED)
+            return out.getvalue()
+
+        def inside(b):
+            k = b.rfind(b"</")
+            return b + raw if k < 0 else b[:k] + raw + b[k:]
+
+        def after_first_tag(b):
+            k = b.find(b">", b.find(b"<", b.find(b"?>") + 1 if b.lstrip().startswith(b"<?xml") else 0))
+            return raw + b if k < 0 else b[:k + 1] + raw + b[k + 1:]
+
+        base = os.path.basename(f)
+        for name in texty:
+            yield f"{base}: member {name} := hostile text", rebuild(lambda n, b, name=name: raw if n == name else b)
+            yield f"{base}: hostile text before the last closing tag of member {name}", rebuild(lambda n, b, name=name: inside(b) if n == name else b)
+            yield f"{base}: hostile text after the first tag of member {name}", rebuild(lambda n, b, name=name: after_first_tag(b) if n == name else b)
+        yield f"{base}: hostile text before the last closing tag of every text member", rebuild(lambda n, b: inside(b) if n in texty else b)
+
+
 def regex_probe(h, repo):
     """Replay of a `regex-eda-pump` obligation: the pumping text of the static witness, lengthened so that an exponential matcher
     cannot finish, (1) on the REAL compiled pattern object of the module, then (2) through the registered extractors of that module
@@ -769,6 +834,17 @@ def regex_probe(h, repo):
         shells = [("raw", raw), ("line", b"\n" + raw + b"\n"), ("rtf", b"{\\rtf1\\ansi " + raw + b"}"),
                   ("html", b"<html><body><p>" + raw + b"</p></body></html>"),
                   ("mail", b"From: a@b.c\nTo: d@e.f\nSubject: s\n\n" + raw + b"\n")]
+        # markup: the text in every syntactic position of a document (attribute values of head and body elements, title, comment,
+        # processing instruction, CDATA), with either quote character around attribute values
+        for q in (b'"', b"'"):
+            if q in raw:
+                continue
+            shells.append(("markup-positions(" + q.decode() + ")",
+                           b"<html><head><meta http-equiv=" + q + b"Content-Type" + q + b" content=" + q + raw + q + b"><meta name=" + q + b"description" + q +
+                           b" content=" + q + raw + q + b"><meta charset=" + q + raw + q + b"><title>" + raw + b"</title><link rel=" + q + b"stylesheet" + q + b" href=" + q + raw + q +
+                           b"></head><body><a href=" + q + raw + q + b" title=" + q + raw + q + b">x</a><img alt=" + q + raw + q + b" src=" + q + raw + q +
+                           b"><!-- " + raw + b" --><?x " + raw + b"?><![CDATA[" + raw + b"]]><p class=" + q + raw + q + b">t</p></body></html>"))
+            break
         for kk, fn in exts:
             if fn in seen_fn:
                 continue
@@ -786,6 +862,23 @@ def regex_probe(h, repo):
                                        "pattern": h["pattern"], "line": h["line"], "pump": h["pump"], "times": k},
                             "expected": "terminates (extraction results or an ExtractionError)",
                             "observed": f"no result within 40 s (child process killed): exponential backtracking of the pattern at {h['file']}:{h['line']}"}
+        # (2b) container formats: the hostile text inside each text member of the smallest fixtures of the format (one child per extractor)
+        seen_fn = set()
+        for kk, fn in exts:
+            if fn in seen_fn:
+                continue
+            seen_fn.add(fn)
+            try:
+                cases = list(container_member_cases(repo, kk, raw))
+            except Exception:  # noqa  (fixtures that cannot be re-packed: next level)
+                cases = []
+            if not cases:
+                continue
+            r = batch_probe(repo, modname, fn, f"x.{kk}", cases, single_timeout=40, per_case=0.1)
+            if r is not None:
+                r["inputs"].update({"pattern": h["pattern"], "line": h["line"], "pump": h["pump"], "times": k, "hostile_text": text[:160]})
+                r["observed"] += f": exponential backtracking of the pattern at {h['file']}:{h['line']}"
+                return r
         # (3) functions of the module that use the pattern and take a single str / bytes argument
         try:
             tree = ast.parse(open(os.path.join(repo, h["file"])).read())
@@ -815,11 +908,178 @@ def regex_probe(h, repo):
     return {"reproduced": False, "note": f"the compiled pattern hangs on {len(text)} characters, but no extractor / function of {modname} was driven into it"}
 
 
+# ------------------------------------------------------------------ e-mail attachments --
+def _mime_spellings(table):
+    """declared types in every spelling a writer may use for a type of the table (RFC 2045: names are case-insensitive and may
+    be followed by parameters), plus types the table does not hold"""
+    keys = list(table)
+    picks = keys[:3] + [k for k in keys if k in ("application/pdf", "text/plain", "text/html", "application/zip", "message/rfc822")]
+    seen, out = set(), []
+    for k in picks:
+        main, _, sub = k.partition("/")
+        for v in (k, k.upper(), k.title(), main.capitalize() + "/" + sub.upper(), k + "; name=report", k + ";", " " + k, k + " ", "\t" + k + "\r\n",
+                  k + "; charset=utf-8", k.upper() + "; NAME=X", k + "\x00", k.replace("/", " / ")):
+            if v not in seen:
+                seen.add(v)
+                out.append(v)
+    mains = sorted({k.partition("/")[0] for k in keys if "/" in k})
+    for v in [m + "/x-unknown-c01" for m in mains] + [m + "/" for m in mains[:2]] + ["application/x-unknown", "application/octet-stream", "", "/", "application",
+                                                                                      "APPLICATION/OCTET-STREAM", "text", ";", "a/b;c=d"]:
+        if v not in seen:
+            seen.add(v)
+            out.append(v)
+    return out
+
+
+ATT_NAMES = ("noext", "sample_pdf", "", "a.bin", "a.pdf", "A.PDF", "a.", ".pdf", "archive.tar.gz", "x.unknownext", "a b", "café", "a.txt")
+
+
+def _consume_attachments(mail, ExtractionError, budget=20):
+    """-> None | description of what escaped"""
+    signal.alarm(budget)
+    try:
+        for _ in mail.iterate_supported_attachments():
+            pass
+    except ExtractionError:
+        return None
+    except _Timeout:
+        return "no result within %d s" % budget
+    except Exception as e:  # noqa
+        return f"{type(e).__name__}: {str(e)[:120]}"
+    finally:
+        signal.alarm(0)
+    return None
+
+
+def _msg_variants(repo, table):
+    """Outlook .msg fixtures with an attachment: the declared MIME type (PR_ATTACH_MIME_TAG, UTF-16) respelled in place at the same
+    length (case changes, a blank / `;` over the last characters), the attachment's file names with and without their extension dot"""
+    for f in sorted(glob.glob(os.path.join(repo, "sharepoint2text/tests/resources/*/*.msg"))):
+        raw = open(f, "rb").read()
+        u16 = lambda t: t.encode("utf-16-le")
+        mimes = [k for k in table if raw.count(u16(k + "\x00"))]
+        import re as _re
+        names = sorted({m.group(0).decode("utf-16-le") for m in _re.finditer(rb"(?:[A-Za-z0-9_\-]\x00){2,24}\.\x00(?:[A-Za-z0-9]\x00){2,4}(?=\x00\x00)", raw)})
+        try:
+            from sharepoint2text.parsing import router as _router
+            exts = {str(k).lower() for k in _router._EXTRACTOR_REGISTRY}
+        except Exception:  # noqa
+            exts = {"pdf", "docx", "pptx", "xlsx", "txt", "doc", "xls", "ppt"}
+        names = [n for n in names if n.rsplit(".", 1)[-1].lower() in exts][:6]      # attachment file names, not message classes / host names
+        for k in mimes:
+            main, _, sub = k.partition("/")
+            spell = [k.upper(), k.title(), main.capitalize() + "/" + sub.upper(), k[:-1] + ";", k[:-1] + " ", " " + k[:-1], k[:-2] + "; ", k]
+            for sp in spell:
+                for strip_ext in (True, False):
+                    data = raw.replace(u16(k + "\x00"), u16(sp + "\x00"))
+                    if strip_ext:
+                        for nm in names:
+                            data = data.replace(u16(nm), u16(nm.replace(".", "_")))
+                    yield f"{os.path.basename(f)}: PR_ATTACH_MIME_TAG {k!r} -> {sp!r}" + ("; attachment names " + ", ".join(repr(n) + " -> " + repr(n.replace('.', '_')) for n in names) if strip_ext and names else ""), data
+
+
+def _eml_variants(table):
+    head = b"From: a@example.com\nTo: b@example.com\nDate: Sat, 27 Dec 2025 10:00:00 +0000\nMessage-ID: <1@example.com>\nSubject: s\nMIME-Version: 1.0\n"
+    for sp in _mime_spellings(table):
+        if any(ord(ch) < 32 for ch in sp):
+            continue
+        for nm in ATT_NAMES[:6]:
+            disp = (b"Content-Disposition: attachment; filename=\"" + nm.encode("utf-8") + b"\"\n") if nm else b"Content-Disposition: attachment\n"
+            part = (b"--B\nContent-Type: text/plain\n\nhello\n--B\nContent-Type: " + sp.encode("utf-8") + b"\n" + disp +
+                    b"Content-Transfer-Encoding: base64\n\naGVsbG8gd29ybGQ=\n--B--\n")
+            yield f"eml: attachment declared {sp!r}, file name {nm!r}", head + b"Content-Type: multipart/mixed; boundary=\"B\"\n\n" + part
+
+
+def attachment_probe(repo):
+    """Attachments through the real code: (1) .msg fixtures and synthetic .eml messages whose attachment declares its type in
+    non-canonical spellings / has a file name without a usable extension -> extract -> consume iterate_supported_attachments();
+    (2) function level: EmailContent with records built exactly as the extractors build them (flag = the real
+    is_supported_mime_type(type)) over spellings x file names x payloads.  Only the ExtractionError family may escape."""
+    import importlib
+    import dataclasses
+    from sharepoint2text.parsing.exceptions import ExtractionError
+    try:
+        from sharepoint2text.parsing import mime_types
+        table = dict(mime_types.MIME_TYPE_MAPPING)
+    except Exception:  # noqa
+        mime_types, table = None, {"application/pdf": "pdf", "text/plain": "txt"}
+    signal.signal(signal.SIGALRM, _alarm)
+    tried = 0
+    readers = []
+    for modname, fn, gen in (("sharepoint2text.parsing.extractors.mail.msg_email_extractor", "read_msg_format_mail", lambda: _msg_variants(repo, table)),
+                             ("sharepoint2text.parsing.extractors.mail.eml_email_extractor", "read_eml_format_mail", lambda: _eml_variants(table))):
+        try:
+            readers.append((getattr(importlib.import_module(modname), fn), gen))
+        except Exception:  # noqa
+            continue
+    for f, gen in readers:
+        try:
+            for label, data in gen():
+                tried += 1
+                signal.alarm(20)
+                try:
+                    mails = list(f(io.BytesIO(data), "m." + ("msg" if "msg" in f.__name__ else "eml")))
+                except ExtractionError:
+                    continue
+                except _Timeout:
+                    return {"reproduced": True, "target": f.__name__, "inputs": {"case": label}, "expected": "terminates", "observed": "no result within 20 s"}, tried
+                except Exception as e:  # noqa
+                    return {"reproduced": True, "target": f"{f.__module__}.{f.__name__}", "inputs": {"case": label, "bytes_hex_prefix": data[:64].hex()},
+                            "expected": "ExtractionError family", "observed": f"{type(e).__name__}: {str(e)[:120]}"}, tried
+                finally:
+                    signal.alarm(0)
+                for m in mails:
+                    if not hasattr(m, "iterate_supported_attachments"):
+                        continue
+                    esc = _consume_attachments(m, ExtractionError)
+                    if esc:
+                        atts = [(getattr(a, "filename", None), getattr(a, "mime_type", None), getattr(a, "is_supported_mime_type", None)) for a in getattr(m, "attachments", [])]
+                        return {"reproduced": True, "target": f"{f.__module__}.{f.__name__} -> EmailContent.iterate_supported_attachments",
+                                "inputs": {"case": label, "size": len(data), "attachments (filename, mime_type, is_supported_mime_type)": atts},
+                                "expected": "attachment results, a skipped attachment, or the ExtractionError family", "observed": esc}, tried
+        except Exception:  # noqa  (a generator that cannot build its documents: next family)
+            continue
+    # (2) records as the extractors build them
+    try:
+        dt = importlib.import_module("sharepoint2text.parsing.extractors.data_types")
+        flag_fn = getattr(mime_types, "is_supported_mime_type")
+        EA, EC = dt.EmailAttachment, dt.EmailContent
+        ec_req = {f_.name for f_ in dataclasses.fields(EC) if f_.default is dataclasses.MISSING and f_.default_factory is dataclasses.MISSING}
+        payloads = [b"", b"garbage \x00\xff" * 8, b"%PDF-1.4\n%%EOF\n", b"hello"]
+        for sp in _mime_spellings(table) + [None]:
+            for nm in ATT_NAMES:
+                for pl in payloads[:2] if sp is None else payloads:
+                    tried += 1
+                    try:
+                        flag = flag_fn(sp)
+                    except Exception:  # noqa  (raised inside the extractors' own try: not this route)
+                        continue
+                    att = EA(filename=nm, mime_type=sp, data=io.BytesIO(pl), is_supported_mime_type=flag)
+                    kw = {"attachments": [att]}
+                    if "from_email" in ec_req:
+                        kw["from_email"] = dt.EmailAddress()
+                    mail = EC(**kw)
+                    esc = _consume_attachments(mail, ExtractionError)
+                    if esc:
+                        return {"reproduced": True, "target": "EmailContent.iterate_supported_attachments (records built as the mail extractors build them)",
+                                "inputs": {"filename": nm, "mime_type": sp, "is_supported_mime_type": f"is_supported_mime_type({sp!r}) == {flag!r}", "data_hex": pl[:32].hex()},
+                                "expected": "attachment results, a skipped attachment, or the ExtractionError family", "observed": esc}, tried
+    except Exception as e:  # noqa
+        return None, tried
+    return None, tried
+
+
+
 def find(req):
     repo = os.environ.get("VERIF_REPO", "/repo")
     hint = req.get("extra") or {}
     if isinstance(hint, dict) and hint.get("family") == "regex":
         return regex_probe(hint, repo)
+    if (isinstance(hint, dict) and hint.get("family") == "attachments") or any(w in (req.get("obligation") or "") for w in ("EmailAttachment", "iterate_supported_attachments", "is_supported_mime_type")):
+        r, n_att = attachment_probe(repo)
+        if r is not None:
+            return r
+        return {"reproduced": False, "note": f"{n_att} attachment cases (msg / eml documents, records built as the extractors build them): only the ExtractionError family escaped"}
     if "/decreases#regex-" in (req.get("obligation") or ""):
         return {"reproduced": False, "note": "no pumping text (pattern not read by the static analysis)"}
     if "/decreases#" in (req.get("obligation") or ""):
